@@ -2,15 +2,19 @@ SPECIFICATION TraceSpec
 CONSTANTS
   Variants = {"best", "deadline"}
   Relays = {1, 2, 3}
+  ProvSet = {}
   Values = {0}
   CfgSet = {}
+  TableSet = {"A", "B"}
   BuilderSet = {"std"}
   AnswerSet = {}
   Headers = {1}
-  MaxRounds = 8
-  Keys = {1, 2}
+  MaxRounds = 12
+  Keys <- TraceKeys
   MaxAuctions = 4
-INVARIANTS TypeOK WinnerIsArgmax OnlyEligibleWin ProvidersOfferedWinner NoWinnerIffNone ParticipationSound ArrivedConsidered CacheRight ServedRight
+  MaxOpen = 4
+  Deviation = "none"
+INVARIANTS TypeOK WinnerIsArgmax OnlyEligibleWin ProvidersOfferedWinner NoWinnerIffNone ParticipationSound ArrivedConsidered CacheRight ServedRight HistoryShape
 CONSTRAINT HWM
 POSTCONDITION TraceAccepted
 CHECK_DEADLOCK FALSE
